@@ -176,7 +176,18 @@ def _run(chk):
         if chk.rng.random() < 0.5:
             numbers = list(range(t0, t0 + len(frames)))
         kw = dict(memory=c['memory'], link_strategy=c['strategy'])
-        srf = linkgen.sr_float(c['sr'])
+        # units: the same movie expressed in another length unit (coordinates and ranges times 2^k: exact in floating
+        # point, so the model sees the unscaled movie).  Tiny units only with genuinely per-axis ranges (there the code
+        # divides by the range first); with one range for all axes the 1e-7 candidate slack of the KD-tree query is
+        # absolute, so only k >= 0 is used.
+        aniso = isinstance(c['sr'], tuple) and len(set(c['sr'])) > 1
+        uexp = chk.rng.choice([0, 0, -30, -20, -10, 5, 10]) if aniso else chk.rng.choice([0, 0, 0, 0, 5, 10])
+        unit = 2.0 ** uexp
+        c['unit_exp'] = uexp
+        frames = [f * unit for f in frames]
+        sr_u = tuple(r * Fraction(2) ** uexp for r in c['sr']) if isinstance(c['sr'], tuple) else c['sr'] * Fraction(2) ** uexp
+        srf = linkgen.sr_float(sr_u)
+        chk.tally('length unit 2^%d%s' % (uexp, ' (per-axis ranges)' if aniso else ''))
         try:
             if entry == 'link':
                 keep = [(tn, f) for tn, f in zip(numbers, frames) if len(f)]
@@ -227,12 +238,12 @@ def _run(chk):
                 labs = [[int(v) for v in o['particle'].values] for o in outs]
                 chk.tally('link_df_iter')
             else:
-                labs = linkgen.run_link_iter(frames, c['sr'], memory=c['memory'], link_strategy=c['strategy'], enumerate_t=numbers)
+                labs = linkgen.run_link_iter(frames, sr_u, memory=c['memory'], link_strategy=c['strategy'], enumerate_t=numbers)
                 fr2 = [f[:, ::-1][:, ::-1] for f in frames]
                 chk.tally('link_iter')
         except SubnetOversizeException:
             chk.tally('oversize (skipped)'); continue
-        c2 = dict(c); c2['frames'] = fr2
+        c2 = dict(c); c2['frames'] = [np.asarray(f, dtype=float) / unit for f in fr2]
         # link/link_df_iter pass coordinates in pos_columns order (z,y,x) = reversed generator order: distances unchanged
         if isinstance(c['sr'], tuple) and entry != 'link_iter':
             c2['sr'] = tuple(c['sr'])   # table columns are reversed (cols[::-1]) and so is the data: same pairing
@@ -244,7 +255,7 @@ def _run(chk):
         chk.count((entry, c02.jsonable(c2, labs)), sum(len(f) for f in c2['frames']) >= 6)
         if r != 0:
             chk.violation('%s:%s' % (entry, CODES.get(r, r)), '%s(%s, memory=%d): %s' % (entry, c2['strategy'], c2['memory'], CODES.get(r, r)),
-                          dict(kind='movie', entry=entry, code=r, case=c02.jsonable(c2, labs), frame_numbers=numbers))
+                          dict(kind='movie', entry=entry, code=r, case=dict(c02.jsonable(c2, labs), unit_exp=c2.get('unit_exp', 0)), frame_numbers=numbers))
     if metas:
         chk.sample(dict(entry=metas[0][0], case=c02.jsonable(metas[0][1], metas[0][2])))
     # coords_from_df itself against its model (Model/CoordsFromDf.v, proved equal to the declarative frame split)
@@ -295,11 +306,13 @@ def _replay(chk, path):
         import trackpy as tp
         cols = ['x', 'y', 'z'][:ndim][::-1]
         nums = r.get('frame_numbers') or list(range(len(frames)))
-        rows = [[*map(float, p), t] for t, f in zip(nums, frames) for p in f]
+        uexp = int(cj.get('unit_exp', 0)); unit = 2.0 ** uexp
+        rows = [[*[float(v) * unit for v in p], t] for t, f in zip(nums, frames) for p in f]
         df = pd.DataFrame(rows, columns=cols + ['frame']); df['_rid'] = np.arange(len(df))
-        out = tp.link(df, linkgen.sr_float(sr), pos_columns=cols, memory=c['memory'], link_strategy=c['strategy'])
+        sr_u = tuple(x * Fraction(2) ** uexp for x in sr) if isinstance(sr, tuple) else sr * Fraction(2) ** uexp
+        out = tp.link(df, linkgen.sr_float(sr_u), pos_columns=cols, memory=c['memory'], link_strategy=c['strategy'])
         fr2, labs, _ = frames_from_output(out, cols)
-        c['frames'] = fr2
+        c['frames'] = [np.asarray(f, dtype=float) / unit for f in fr2]
         res = common.coq_eval_lists(chk.work, IMPORTS, FUNC, [c02.case_term(c, labs)])
         chk.count(('replay', cj), True)
         print('replay (through tp.link): labels', labs, 'monitor code', res[0], CODES.get(res[0]))
